@@ -388,6 +388,32 @@ def deepestGuarded (s : State) : Nat → FId → FId → Nat → FId
 
 def chainFuel (s : State) : Nat := s.fibers.length + 2
 
+/-- the same walk, asking whether it meets a descendant with JANET_FIBER_FLAG_ROOT (a task of the event loop that was
+    linked as a child: `propagate` from it, or `ev/go` on a fiber that already was somebody's child) -/
+def walkMeetsRoot (s : State) : Nat → FId → FId → Nat → Bool
+  | 0, _, _, _ => false
+  | fuel + 1, child, slow, step =>
+    match s.fiber? child with
+    | none => false
+    | some fc =>
+      match fc.child with
+      | none => false
+      | some c =>
+        match s.fiber? c with
+        | none => false
+        | some cc =>
+          if cc.status = stAlive then false
+          else if cc.root then true
+          else
+            let slow' := if step % 2 = 1 then (match s.fiber? slow with | some fs => fs.child.getD slow | none => slow) else slow
+            if c = slow' then false else walkMeetsRoot s fuel c slow' (step + 1)
+
+/-- (patched tree) janet_continue_signal refuses with an error, before it marks anything, when its walk meets a root fiber -/
+def cancelRefusedRoot (s : State) (g : FId) : Bool :=
+  cancelWalkRefusesRoot && walkMeetsRoot s (3 * chainFuel s) g g 0
+
+def cancelRootMsg : Val := .str "cannot cancel root fiber, use ev/cancel"
+
 /-- the walk of janet_continue_signal as it is in the current tree -/
 def cancelTarget (s : State) (g : FId) : Option FId :=
   if cancelWalkGuarded then some (deepestGuarded s (3 * chainFuel s) g g 0) else deepest s (chainFuel s) g
@@ -451,7 +477,11 @@ def execPrim (s : State) (p : FId) (fp : Fiber) (rest : List FId) (l : Nat) (pr 
         | some msg => raise s p fp rest sigError msg
         | none =>
           let s := s.setFiber p { block fp false with child := some g }
-          -- janet_continue_signal: mark the deepest descendant, then janet_continue_no_check
+          -- janet_continue_signal: (patched tree) a task of the event loop in the chain is refused like a direct cancel; the
+          -- refusal comes back to JOP_CANCEL as a signal of `g` (mask test of g, `g` itself untouched)
+          if cancelRefusedRoot s g = true then unwind s (p :: rest) g sigError cancelRootMsg
+          else
+          -- mark the deepest descendant, then janet_continue_no_check
           match cancelTarget s g with
           | none => s.stop .hang
           | some d =>
